@@ -510,3 +510,39 @@ def decode(data: bytes, width: int, rows: Optional[int] = None, byte_align: bool
         out.append(cur)
         ref = cur
     return out
+
+
+def selftest_roundtrip(max_w: int = 5, nrandom: int = 60) -> int:
+    """Encoder against the reference decoder above: every (reference, coding) line pair up to max_w with every
+    admissible mode sequence, both alignments, with and without EOFB; plus random wide lines with a deviating
+    chooser.  Returns the number of round trips; raises AssertionError on the first mismatch."""
+    import itertools
+
+    n = 0
+    for w in range(1, max_w + 1):
+        lines = [list(x) for x in itertools.product((WHITE, BLACK), repeat=w)]
+        for ref in lines:
+            rb = encode_row([WHITE] * w, ref)
+            for cur in lines:
+                for bits, modes in enum_row_encodings(ref, cur):
+                    for al in (False, True):
+                        for eo in (False, True):
+                            got = decode(frame([rb, bits], al, eo), w, None if eo else 2, al)
+                            assert got == [ref, cur], (ref, cur, modes, al, eo, got)
+                            n += 1
+    rng = random.Random("t6-selftest")
+    for _ in range(nrandom):
+        w = rng.choice([1, 7, 8, 9, 63, 64, 65, 300, 1728, 2560, 2700, 5200])
+        rows = []
+        for _r in range(rng.randint(1, 3)):
+            row: List[int] = []
+            c = rng.randint(0, 1)
+            while len(row) < w:
+                row += [c] * rng.randint(1, rng.choice([2, 5, 70, 3000]))
+                c = 1 - c
+            rows.append(row[:w])
+        al, eo = rng.random() < 0.5, rng.random() < 0.5
+        data = encode(rows, w, chooser_random(rng, rng.choice([0.0, 0.3, 1.0])), al, eo)
+        assert decode(data, w, None if eo else len(rows), al) == rows, (w, al, eo)
+        n += 1
+    return n
